@@ -244,6 +244,11 @@ pub fn worker_main(mode: &str) -> ! {
         let bytes = unhex(line.trim());
         let reply = match mode {
             "frontend" => frontend_case(&String::from_utf8_lossy(&bytes)),
+            "frontend-timed" => {
+                let t0 = std::time::Instant::now();
+                let r = frontend_case(&String::from_utf8_lossy(&bytes));
+                format!("{}|{r}", t0.elapsed().as_millis())
+            }
             "literal" => literal_case(&String::from_utf8_lossy(&bytes)),
             "bristol" => bristol_case(&bytes, &dir),
             _ => "setup-error|unknown mode".to_string(),
